@@ -34,6 +34,30 @@ Proof.
   - destruct drv, locked, row as [[]|], ph; vm_compute; reflexivity.
 Qed.
 
+(* ... and INSIDE the two regions every proxy-driver delivery breaks it: the committed record and the
+   committed effects do not move together.  The regions are exactly as wide as the defect. *)
+Definition region_fails (locked : bool) (row : option status) (ph : phase) (fault : option nat) : bool :=
+  drv_supported locked row ph fault ||
+  (let '(_, sh) := deliver_l true locked row ph fault in negb (legal row (s_row sh) (s_effs sh))).
+
+Lemma region_fails_all : forall locked row ph fault, region_fails locked row ph fault = true.
+Proof.
+  intros locked row ph fault.
+  destruct fault as [n|].
+  - do 16 (destruct n as [|n]; [destruct locked, row as [[]|], ph; vm_compute; reflexivity|]).
+    destruct locked, row as [[]|], ph; vm_compute; reflexivity.
+  - destruct locked, row as [[]|], ph; vm_compute; reflexivity.
+Qed.
+
+Theorem regions_exact : forall locked row ph fault,
+  drv_supported locked row ph fault = false ->
+  let '(_, sh) := deliver_l true locked row ph fault in legal row (s_row sh) (s_effs sh) = false.
+Proof.
+  intros locked row ph fault H. pose proof (region_fails_all locked row ph fault) as R.
+  unfold region_fails in R. rewrite H in R. rewrite orb_false_l in R.
+  destruct (deliver_l true locked row ph fault) as [t sh]. apply negb_true_iff in R. exact R.
+Qed.
+
 Definition dop_drv (o : dop) : bool := match o with DApi _ _ _ => false | DDrv _ _ _ => true end.
 
 Lemma dop_run_eq : forall dw o,
